@@ -13,6 +13,7 @@
 #include "c10_variants.hpp"
 #include "report.hpp"
 
+#include <algorithm>
 #include <cmath>
 #include <cstdio>
 #include <ctime>
@@ -107,8 +108,9 @@ static const char* zname(int c) { return c == Z_ZERO ? "a zero" : c == Z_FIN ? "
 // ------------------------------------------------------------------------------------------------------
 // variants
 enum Cls { C_ARITH, C_ASG, C_ASGS, C_EQ, C_NE, C_FN, C_ACC, C_ACCSTD };
-enum Form { F_CC = 0, F_CS = 1, F_SC = 2 };   // effective operands: (a,b)o(c,d) | (a,b)o(c,0) | (c,0)o(a,b)
-static const char* form_name(int f) { return f == F_CC ? "cc" : f == F_CS ? "cs" : "sc"; }
+// effective operands: (a,b)o(c,d) | (a,b)o(c,0) | (c,0)o(a,b) | aliasing forms: (a,b)o(a,b) | (a,b)o(a,0) | (a,b)o(b,0)
+enum Form { F_CC = 0, F_CS = 1, F_SC = 2, F_AA = 3, F_ASR = 4, F_ASI = 5, F_NFORMS = 6 };
+static const char* form_name(int f) { return f == F_CC ? "cc" : f == F_CS ? "cs" : f == F_SC ? "sc" : f == F_AA ? "aa" : f == F_ASR ? "as-real" : "as-imag"; }
 static const char* op_names[4] = {"add", "sub", "mul", "div"};
 static const char* op_chars[4] = {"+", "-", "*", "/"};
 
@@ -124,6 +126,7 @@ struct Variant
     int arity;             // 4: all of a,b,c,d matter; 3: a,b,c; 2: a,b
     bool int_scalar;
     bool compound;
+    bool alias;            // aliasing form: the operands are deliberately the same object / storage
     int k1;                // closure kind of the first operand
     void (*fn)(IO<T>&);
     void (*ref)(IO<T>&);
@@ -166,7 +169,7 @@ struct Registry
     Variant<T> blank()
     {
         Variant<T> x;
-        x.cls = C_ARITH; x.op = -1; x.form = F_CC; x.eff = false; x.arity = 4; x.int_scalar = false; x.compound = false;
+        x.cls = C_ARITH; x.op = -1; x.form = F_CC; x.eff = false; x.arity = 4; x.int_scalar = false; x.compound = false; x.alias = false;
         x.k1 = c10::KV; x.fn = nullptr; x.ref = nullptr; x.group = x.base = x.dgroup = -1;
         return x;
     }
@@ -186,6 +189,14 @@ struct Registry
         x.op = opidx(op); x.form = form; x.eff = b1; x.arity = 3; x.compound = compound; x.int_scalar = int_scalar; x.k1 = k1; x.fn = fn;
         add(x, std::string(op) + ":" + sub + (int_scalar ? "-int" : "") + ":" + (b1 ? "1" : "0"),
             std::string(op) + ":" + form_name(form) + ":" + (x.eff ? "ieee" : "naive"));
+    }
+    // aliasing forms; group = (operation, flags[, aliased part]); the first member of a group is the binary operator on copies
+    void alias(const char* op, const std::string& sub, int form, bool b1, bool b2, int k1, bool is_base, void (*fn)(IO<T>&))
+    {
+        Variant<T> x = blank();
+        x.name = std::string(op) + ":" + sub;
+        x.op = opidx(op); x.form = form; x.eff = b1 || b2; x.arity = 2; x.compound = !is_base; x.alias = true; x.k1 = k1; x.fn = fn;
+        add(x, std::string(op) + ":alias:" + form_name(form) + ":" + (b1 ? "1" : "0") + (b2 ? "1" : "0"), std::string(op) + ":" + form_name(form) + ":" + (x.eff ? "ieee" : "naive"));
     }
     void stdform(const char* op, bool b, void (*fn)(IO<T>&))
     {
@@ -232,6 +243,13 @@ static const char* part_name = "mul";
 #define C10_IF_div(x) x
 #define C10_MISC(x)
 static const char* part_name = "div";
+#elif defined(C10_PART_MIXED)
+#define C10_IF_add(x)
+#define C10_IF_sub(x)
+#define C10_IF_mul(x)
+#define C10_IF_div(x)
+#define C10_MISC(x)
+static const char* part_name = "mixed";
 #else
 #define C10_IF_add(x)
 #define C10_IF_sub(x)
@@ -240,6 +258,10 @@ static const char* part_name = "div";
 #define C10_MISC(x) x
 static const char* part_name = "misc";
 #endif
+// mixed value types are registered by their own function (register_mixed); no-ops here
+#define MEQ(T1, K1, B1, T2, K2, B2)
+#define MNE(T1, K1, B1, T2, K2, B2)
+#define MBIN(op, T1, T2)
 
 #define BIN(op, K1, B1, K2, B2) C10_IF_##op(reg.arith2(#op, "bin", false, c10::K1, B1, c10::K2, B2, &c10::v_bin<T, c10::op_##op, c10::K1, B1, c10::K2, B2>);)
 #define CMPD(op, K1, B1, K2, B2) C10_IF_##op(reg.arith2(#op, "cmpd", true, c10::K1, B1, c10::K2, B2, &c10::v_cmpd<T, c10::op_##op, c10::K1, B1, c10::K2, B2>);)
@@ -249,6 +271,14 @@ static const char* part_name = "misc";
 #define SLEFT_INT(op, K1, B1) C10_IF_##op(reg.arith1(#op, "sleft", F_SC, false, true, c10::K1, B1, &c10::v_sleft<T, c10::op_##op, c10::K1, B1, int>);)
 #define CMPDS(op, K1, B1) C10_IF_##op(reg.arith1(#op, "cmpds", F_CS, true, false, c10::K1, B1, &c10::v_cmpds<T, c10::op_##op, c10::K1, B1, T>);)
 #define CMPDS_INT(op, K1, B1) C10_IF_##op(reg.arith1(#op, "cmpds", F_CS, true, true, c10::K1, B1, &c10::v_cmpds<T, c10::op_##op, c10::K1, B1, int>);)
+#define C10_B(b) (b ? "1" : "0")
+#define ALIAS_BASE(op, B1, B2) C10_IF_##op(reg.alias(#op, std::string("alias-copies:V") + C10_B(B1) + ":V" + C10_B(B2), F_AA, B1, B2, c10::KV, true, &c10::v_alias_base<T, c10::op_##op, B1, B2>);)
+#define ALIAS_SELF(op, K1, B1) C10_IF_##op(reg.alias(#op, std::string("alias-self:") + kname(c10::K1) + C10_B(B1), F_AA, B1, B1, c10::K1, false, &c10::v_alias_self<T, c10::op_##op, c10::K1, B1>);)
+#define ALIAS_RHSREF(op, B1, K2, B2) C10_IF_##op(reg.alias(#op, std::string("alias-rhs-closure-over-lhs:V") + C10_B(B1) + ":" + kname(c10::K2) + C10_B(B2), F_AA, B1, B2, c10::KV, false, &c10::v_alias_rhsref<T, c10::op_##op, B1, c10::K2, B2>);)
+#define ALIAS_LHSREF(op, B1, B2) C10_IF_##op(reg.alias(#op, std::string("alias-lhs-closure-over-rhs:R") + C10_B(B1) + ":V" + C10_B(B2), F_AA, B1, B2, c10::KV, false, &c10::v_alias_lhsref<T, c10::op_##op, B1, B2>);)
+#define ALIAS_REF2(op, B1, K2, B2) C10_IF_##op(reg.alias(#op, std::string("alias-two-closures:R") + C10_B(B1) + ":" + kname(c10::K2) + C10_B(B2), F_AA, B1, B2, c10::KR, false, &c10::v_alias_ref2<T, c10::op_##op, B1, c10::K2, B2>);)
+#define ALIAS_SBASE(op, B1, PART) C10_IF_##op(reg.alias(#op, std::string("alias-scalar-copy:V") + C10_B(B1) + (PART ? ":imag" : ":real"), PART ? F_ASI : F_ASR, B1, B1, c10::KV, true, &c10::v_alias_sbase<T, c10::op_##op, B1, PART>);)
+#define ALIAS_SPART(op, K1, B1, PART) C10_IF_##op(reg.alias(#op, std::string("alias-scalar-part:") + kname(c10::K1) + C10_B(B1) + (PART ? ":imag" : ":real"), PART ? F_ASI : F_ASR, B1, B1, c10::K1, false, &c10::v_alias_spart<T, c10::op_##op, c10::K1, B1, PART>);)
 #define STDF(op, B1) C10_IF_##op(reg.stdform(#op, B1, &c10::v_std<T, c10::op_##op, B1>);)
 #define ASG(K1, B1, K2, B2) C10_MISC(reg.other2(C_ASG, "assign", c10::K1, B1, c10::K2, B2, &c10::v_asg<T, c10::K1, B1, c10::K2, B2>);)
 #define ASGS(K1, B1) C10_MISC(reg.other1(C_ASGS, "assign-scalar", 3, c10::K1, B1, &c10::v_asgs<T, c10::K1, B1>);)
@@ -393,6 +423,8 @@ static void make_oracle(Oracle<T>& o, T a, T b, T c, T d)
 static std::string g_only;     // --one: report for this variant only
 static bool g_verbose = false;
 static long long g_eval = 0, g_judged = 0, g_distinct = 0;
+static bool g_last_tol = false;   // the tolerance rule judged the last arithmetic evaluation
+static long long g_alias_judged = 0;
 static long long g_tol_checks = 0, g_rule_checks = 0, g_vs_value = 0, g_vs_std = 0;
 
 template <class T>
@@ -452,6 +484,7 @@ static bool judge_arith(const Variant<T>& v, const IO<T>& io, const Oracle<T>& o
 {
     const PerOp& r = o.op[v.op];
     bool judged = false;
+    g_last_tol = false;
     // strings are only built when something is wrong
     auto fam = [&]() {
         return std::string("C10/") + op_names[v.op] + (v.eff ? ".ieee<" : ".naive<") + cfg<T>::name() + ">/" + form_name(v.form) + "/" +
@@ -464,6 +497,7 @@ static bool judge_arith(const Variant<T>& v, const IO<T>& io, const Oracle<T>& o
     if (r.tol_any || (v.eff && r.tol_ieee))
     {
         judged = true;
+        g_last_tol = true;
         ++g_tol_checks;
         const T eps = std::numeric_limits<T>::epsilon();
         if (!is_fin(io.out[0]) || !is_fin(io.out[1]))
@@ -501,7 +535,7 @@ struct PairRunner
     std::vector<T> bout;          // base results per group
     std::vector<char> bvalid;
     std::vector<char> dseen;
-    Oracle<T> orc[3];
+    Oracle<T> orc[F_NFORMS];
     long long samples_ieee, samples_tol;
 
     explicit PairRunner(Registry<T>& r) : reg(r), bout(2 * r.groups.size()), bvalid(r.groups.size()), dseen(r.dgroups.size()), samples_ieee(0), samples_tol(0) {}
@@ -511,7 +545,7 @@ struct PairRunner
     {
         std::fill(bvalid.begin(), bvalid.end(), 0);
         std::fill(dseen.begin(), dseen.end(), 0);
-        orc[0].valid = orc[1].valid = orc[2].valid = false;
+        for (int f = 0; f < F_NFORMS; ++f) orc[f].valid = false;
         const T a = in[0], b = in[1], c = in[2], d = in[3];
         for (size_t vi = 0; vi < reg.v.size(); ++vi)
         {
@@ -543,6 +577,9 @@ struct PairRunner
                 {
                     if (v.form == F_CC) make_oracle<T>(o, a, b, c, d);
                     else if (v.form == F_CS) make_oracle<T>(o, a, b, c, T(0));
+                    else if (v.form == F_AA) make_oracle<T>(o, a, b, a, b);
+                    else if (v.form == F_ASR) make_oracle<T>(o, a, b, a, T(0));
+                    else if (v.form == F_ASI) make_oracle<T>(o, a, b, b, T(0));
                     else make_oracle<T>(o, c, T(0), a, b);
                 }
                 judged = judge_arith<T>(v, io, o);
@@ -624,6 +661,20 @@ struct PairRunner
             {
                 bout[2 * v.group] = io.out[0]; bout[2 * v.group + 1] = io.out[1]; bvalid[v.group] = 1;
             }
+            else if (bvalid[v.group] && v.alias)
+            {
+                // aliased compound assignment vs the binary operator on copies.  Where the tolerance rule has judged the value that
+                // is all the property promises; elsewhere (special / extreme operands) the two must agree up to the sign of zeros.
+                if (!g_last_tol)
+                {
+                    ++g_vs_value;
+                    const T b0 = bout[2 * v.group], b1 = bout[2 * v.group + 1];
+                    bool ok0 = same_mod_nan(io.out[0], b0) || same_value(io.out[0], b0), ok1 = same_mod_nan(io.out[1], b1) || same_value(io.out[1], b1);
+                    if (!ok0 || !ok1)
+                        report(v, io, "C10/" + v.name + "<" + cfg<T>::name() + ">/vs-" + reg.v[v.base].name + "/result-differs",
+                               describe(v, io) + ": " + reg.v[v.base].name + " (no aliasing) gives " + fmtc(b0, b1));
+                }
+            }
             else if (bvalid[v.group] && v.cls != C_ACC)
             {
                 ++g_vs_value;
@@ -631,11 +682,20 @@ struct PairRunner
                     report(v, io, "C10/" + v.name + "<" + cfg<T>::name() + ">/vs-" + reg.v[v.base].name + "/result-differs",
                            describe(v, io) + ": the same operation with closures " + reg.v[v.base].name + " gives " + fmtc(bout[2 * v.group], bout[2 * v.group + 1]));
             }
-            if (v.cls != C_ACC && v.cls != C_ACCSTD) check_after<T>(v, io);
+            if (v.alias)
+            {
+                if (io.flags & c10::F_RETREF)
+                    report(v, io, "C10/" + v.name + "<" + cfg<T>::name() + ">/operands-after/return-is-not-self", describe(v, io) + ": the compound operator did not return a reference to its left operand");
+                if (!v.compound) {}
+                else if (!same_mod_nan(io.stor[0], io.out[0]) || !same_mod_nan(io.stor[1], io.out[1]))
+                    report(v, io, "C10/" + v.name + "<" + cfg<T>::name() + ">/operands-after/referent-not-updated", describe(v, io) + ": storage holds " + fmtc(io.stor[0], io.stor[1]));
+            }
+            else if (v.cls != C_ACC && v.cls != C_ACCSTD) check_after<T>(v, io);
             if (judged)
             {
                 ++g_judged;
                 if (nontrivial && !dseen[v.dgroup]) { dseen[v.dgroup] = 1; ++g_distinct; }
+                if (v.alias) ++g_alias_judged;
             }
             if (g_verbose && (g_only.empty() || g_only == v.name))
                 std::printf("%s%s\n", describe(v, io).c_str(), judged ? "" : "  (not judged by a value rule)");
@@ -748,6 +808,7 @@ static int run_all(int argc, char** argv)
     vf::stat("tolerance_checks", g_tol_checks);
     vf::stat("annexg_rule_checks", g_rule_checks);
     vf::stat("closure_identity_checks", g_vs_value);
+    vf::stat("aliasing_evaluations_judged", g_alias_judged);
     vf::stat("std_complex_identity_checks", g_vs_std);
     vf::stat("oracle_disagreements", g_disagree);
     vf::stat("rule_table_second_opinions", g_second_opinions);
@@ -756,7 +817,217 @@ static int run_all(int argc, char** argv)
     return 0;
 }
 
+// ------------------------------------------------------------------------------------------------------
+// mixed value types (part MIXED): == / != between xcomplex over float, double, int, long double, and binary
+// arithmetic between different value types where it compiles (nowhere on the pinned tree)
+#if defined(C10_PART_MIXED)
+typedef long double ld;
+template <class T> struct tyname;
+template <> struct tyname<float> { static const char* n() { return "float"; } };
+template <> struct tyname<double> { static const char* n() { return "double"; } };
+template <> struct tyname<int> { static const char* n() { return "int"; } };
+template <> struct tyname<long double> { static const char* n() { return "long double"; } };
+
+// v is exactly representable in T
+template <class T> static bool representable(ld v)
+{
+    if (v != v || v == std::numeric_limits<ld>::infinity() || v == -std::numeric_limits<ld>::infinity()) return std::numeric_limits<T>::has_infinity;
+    if (std::numeric_limits<T>::is_integer)
+        return v == std::floor(v) && v >= ld(std::numeric_limits<T>::min()) && v <= ld(std::numeric_limits<T>::max()) && !(v == 0 && std::signbit(v));
+    if (std::fabs(v) > ld(std::numeric_limits<T>::max())) return false;
+    return ld(static_cast<T>(v)) == v;
+}
+// usable as a part of an operand of type T1 that meets an operand of type T2: exact in T1 and in the type the built-in
+// comparison converts both sides to (so that "comparing both parts" has one meaning, e.g. int 2^24+1 never meets a float)
+template <class T1, class T2> static bool usable(ld v) { return representable<T1>(v) && representable<typename std::common_type<T1, T2>::type>(v); }
+
+static std::string fmtl(ld x)
+{
+    char b[96];
+    if (x != x) return "nan";
+    std::snprintf(b, sizeof b, "%.21Lg", x);
+    return b;
+}
+static std::string hexl(ld x)
+{
+    char b[96];
+    if (x != x) return "nan";
+    std::snprintf(b, sizeof b, "%La", x);
+    return b;
+}
+
+struct MVariant
+{
+    std::string name, types, opname;
+    bool ne, first_of_types;
+    bool (*cmp)(const ld*);
+    void (*bin)(const ld*, ld*);
+    int op;
+    ld eps;
+    bool (*ok1)(ld);
+    bool (*ok2)(ld);
+};
+static std::vector<MVariant> g_mixed;
+static std::map<std::string, int> g_mixed_seen;
+
+template <class T1, class T2>
+static void add_mcmp(const char* k1, bool b1, const char* k2, bool b2, bool ne, bool (*fn)(const ld*))
+{
+    MVariant m;
+    m.types = std::string(tyname<T1>::n()) + "," + tyname<T2>::n();
+    m.opname = ne ? "operator!=" : "operator==";
+    m.name = m.opname + ":" + tyname<T1>::n() + ":" + k1 + (b1 ? "1" : "0") + ":" + tyname<T2>::n() + ":" + k2 + (b2 ? "1" : "0");
+    m.ne = ne; m.cmp = fn; m.bin = nullptr; m.op = -1; m.eps = 0;
+    m.ok1 = &usable<T1, T2>; m.ok2 = &usable<T2, T1>;
+    m.first_of_types = g_mixed_seen[m.opname + m.types]++ == 0;
+    g_mixed.push_back(m);
+}
+template <class T> static ld eps_of() { return std::numeric_limits<T>::is_integer ? ld(0) : ld(std::numeric_limits<T>::epsilon()); }
+template <class T1, class T2>
+static void add_mbin(const char* op, void (*fn)(const ld*, ld*))
+{
+    MVariant m;
+    m.types = std::string(tyname<T1>::n()) + "," + tyname<T2>::n();
+    m.opname = std::string("mixed-") + op;
+    m.name = m.opname + ":" + tyname<T1>::n() + ":" + tyname<T2>::n();
+    m.ne = false; m.cmp = nullptr; m.bin = fn;
+    m.op = Registry<double>::opidx(op);
+    m.eps = std::max(eps_of<T1>(), eps_of<T2>());
+    m.ok1 = &usable<T1, T2>; m.ok2 = &usable<T2, T1>;
+    m.first_of_types = true;
+    g_mixed.push_back(m);
+}
+
+#undef MEQ
+#undef MNE
+#undef MBIN
+#define MEQ(T1, K1, B1, T2, K2, B2) add_mcmp<c10::ty_##T1, c10::ty_##T2>(kname(c10::K1), B1, kname(c10::K2), B2, false, &c10::m_cmp<c10::ty_##T1, c10::K1, B1, c10::ty_##T2, c10::K2, B2, false>);
+#define MNE(T1, K1, B1, T2, K2, B2) add_mcmp<c10::ty_##T1, c10::ty_##T2>(kname(c10::K1), B1, kname(c10::K2), B2, true, &c10::m_cmp<c10::ty_##T1, c10::K1, B1, c10::ty_##T2, c10::K2, B2, true>);
+#define MBIN(op, T1, T2) add_mbin<c10::ty_##T1, c10::ty_##T2>(#op, &c10::m_bin<c10::ty_##T1, c10::ty_##T2, c10::op_##op>);
+static void register_mixed()
+{
+#include "c10_variants.inc"
+}
+
+static long long g_meval = 0, g_mdistinct = 0;
+
+static void mixed_one(const MVariant& m, const ld in[4], bool verbose)
+{
+    ++g_meval;
+    std::vector<std::string> rp = {"--one", m.name, hexl(in[0]), hexl(in[1]), hexl(in[2]), hexl(in[3])};
+    const std::string ops = "(" + fmtl(in[0]) + ", " + fmtl(in[1]) + ") and (" + fmtl(in[2]) + ", " + fmtl(in[3]) + ")";
+    if (m.cmp)
+    {
+        // exact values (every operand type embeds exactly in long double); symmetric in the operand order by construction
+        bool er = in[0] == in[2], ei = in[1] == in[3];
+        bool anynan = in[0] != in[0] || in[1] != in[1] || in[2] != in[2] || in[3] != in[3];
+        bool expect = (er && ei) != m.ne;
+        bool got = m.cmp(in);
+        if (m.first_of_types && (er || ei || anynan)) ++g_mdistinct;
+        if (verbose) std::printf("%s on %s -> %s (exact comparison: %s)\n", m.name.c_str(), ops.c_str(), got ? "true" : "false", expect ? "true" : "false");
+        if (got != expect)
+        {
+            const char* icls = anynan ? "nan-part" : (er && ei) ? "equal" : er ? "imag-differs" : ei ? "real-differs" : "both-differ";
+            vf::violation("C10/" + m.opname + "<" + m.types + ">/" + icls + "/wrong-answer",
+                          m.name + " on " + ops + " returned " + (got ? "true" : "false") + ", comparing both parts (exact values) gives " + (expect ? "true" : "false"), rp);
+        }
+        if (g_meval % 2000003 == 17)
+            vf::sample(m.name + " on " + ops + " -> " + (got ? "true" : "false"), 2);
+    }
+    else
+    {
+        // binary arithmetic across value types: small well-scaled operands only, exact result in long double, 8 eps of the coarser type
+        for (int i = 0; i < 4; ++i)
+        {
+            ld a = std::fabs(in[i]);
+            if (!(a == 0 || (a >= ld(1) / 1048576 && a <= ld(1048576)))) return;
+        }
+        if (m.op == 3 && in[2] == 0 && in[3] == 0) return;
+        ld out[2] = {0, 0};
+        m.bin(in, out);
+        const ld a = in[0], b = in[1], c = in[2], d = in[3];
+        ld er, ei;
+        if (m.op == 0) { er = a + c; ei = b + d; }
+        else if (m.op == 1) { er = a - c; ei = b - d; }
+        else if (m.op == 2) { er = a * c - b * d; ei = a * d + b * c; }
+        else { ld e = c * c + d * d; er = (a * c + b * d) / e; ei = (b * c - a * d) / e; }
+        ld dr = out[0] - er, di = out[1] - ei, tol = 8 * m.eps + (m.eps == 0 ? 1 : 0);
+        ++g_mdistinct;
+        if (verbose) std::printf("%s on %s -> (%s, %s), exact (%s, %s)\n", m.name.c_str(), ops.c_str(), fmtl(out[0]).c_str(), fmtl(out[1]).c_str(), fmtl(er).c_str(), fmtl(ei).c_str());
+        if (!(dr * dr + di * di <= tol * tol * (er * er + ei * ei)))
+            vf::violation("C10/" + m.opname + "<" + m.types + ">/fin/inexact", m.name + " on " + ops + " -> (" + fmtl(out[0]) + ", " + fmtl(out[1]) + "), exact (" + fmtl(er) + ", " + fmtl(ei) + ")", rp);
+    }
+}
+
+static int run_mixed(int argc, char** argv)
+{
+    int shard = 0, nshard = 1;
+    long long deadline = 0;
+    const char* one[5] = {nullptr, nullptr, nullptr, nullptr, nullptr};
+    bool list = false;
+    for (int i = 1; i < argc; ++i)
+    {
+        std::string s = argv[i];
+        if (s == "--tier") ++i;
+        else if (s == "--shard") { shard = atoi(argv[i + 1]); nshard = atoi(argv[i + 2]); i += 2; }
+        else if (s == "--deadline") deadline = atoll(argv[++i]);
+        else if (s == "--one") { for (int k = 0; k < 5; ++k) one[k] = argv[i + 1 + k]; i += 5; }
+        else if (s == "--list") list = true;
+    }
+    register_mixed();
+    if (list) { for (auto& m : g_mixed) std::printf("%s\n", m.name.c_str()); return 0; }
+    if (one[0])
+    {
+        bool found = false;
+        ld in[4];
+        for (int k = 0; k < 4; ++k) in[k] = std::strtold(one[k + 1], nullptr);
+        for (auto& m : g_mixed) if (m.name == one[0]) { found = true; mixed_one(m, in, true); }
+        if (!found) { std::printf("no variant %s in part mixed\n", one[0]); return 3; }
+    }
+    else
+    {
+        // part alphabet: exactly representable small values, values that need more precision than the narrower type has
+        // (0.1 and 1/3 in each precision, 1.5 and 0.75 vs int, 2^24+1 vs float, 2^53+1 vs double), range ends, inf, NaN
+        const ld inf = std::numeric_limits<ld>::infinity();
+        const ld M[] = {0, -ld(0), 1, -1, 2, 3, -7, ld(0.5), ld(1.5), ld(-0.75),
+                        ld(0.1f), ld(0.1), 0.1L, ld(1.0f / 3.0f), ld(1.0 / 3.0), 1.0L / 3.0L,
+                        ld(16777216), ld(16777217), ld(-16777217), ld(9007199254740992.0), ld(9007199254740992.0) + 1, ld(2147483647), ld(-2147483647) - 1,
+                        ld(1e30f), ld(1e300), inf, -inf, std::numeric_limits<ld>::quiet_NaN()};
+        const int n = int(sizeof M / sizeof M[0]);
+        for (size_t vi = 0; vi < g_mixed.size(); ++vi)
+        {
+            if (int(vi % nshard) != shard) continue;
+            const MVariant& m = g_mixed[vi];
+            if (deadline && (long long)std::time(nullptr) > deadline)
+            {
+                vf::cap("deadline: mixed shard " + vf::str(shard) + "/" + vf::str(nshard) + " stopped before variant " + m.name);
+                break;
+            }
+            std::vector<ld> A, B;
+            for (int i = 0; i < n; ++i) { if (m.ok1(M[i])) A.push_back(M[i]); if (m.ok2(M[i])) B.push_back(M[i]); }
+            for (ld a : A) for (ld b : A) for (ld c : B) for (ld d : B)
+            {
+                ld in[4] = {a, b, c, d};
+                mixed_one(m, in, false);
+            }
+        }
+        vf::stat("variants_mixed", shard == 0 ? (long long)g_mixed.size() : 0);
+        vf::smax("mixed_alphabet_size", n);
+    }
+    vf::stat("evaluations", g_meval);
+    vf::stat("mixed_type_evaluations", g_meval);
+    vf::stat("judged_evaluations", g_meval);
+    vf::stat("distinct_nontrivial", g_mdistinct);
+    vf::done();
+    return 0;
+}
+#endif
+
 int main(int argc, char** argv)
 {
+#if defined(C10_PART_MIXED)
+    return run_mixed(argc, argv);
+#else
     return run_all<C10_T>(argc, argv);
+#endif
 }
